@@ -17,17 +17,29 @@ m=json.load(open(sys.argv[1]))
 ok=not m.get("excluded") and m.get("applies") and m.get("compiles") and m.get("existing_suite_passes_with_change") and m.get("demo_fails_with_change") and m.get("demo_passes_without_change")
 sys.exit(0 if ok else 1)
 PY
-  SW=/tmp/seedown.$id.$$; SC=$V/.work/own.$id.$$
+  # a small fixed set of worktree paths (slots): the Go build cache is keyed by the path of the
+  # replaced module, so a fresh path per defect would recompile (and cache) everything each time
+  slot=""
+  while [ -z "$slot" ]; do
+    for n in $(seq 1 ${PAR:-4}); do
+      if mkdir "/tmp/seedown.lock.$n" 2>/dev/null; then slot=$n; break; fi
+    done
+    [ -z "$slot" ] && sleep 1
+  done
+  SW=/tmp/seedown.slot$slot; SC=$V/.work/seedown.slot$slot
+  trap 'git -C /repo worktree remove --force "$SW" >/dev/null 2>&1; rm -rf "$SC" "$SW"; rmdir "/tmp/seedown.lock.$slot"' EXIT
+  git -C /repo worktree remove --force "$SW" >/dev/null 2>&1; rm -rf "$SW" "$SC"
   git -C /repo worktree add --detach "$SW" HEAD >/dev/null 2>&1 || exit 0
-  trap 'git -C /repo worktree remove --force "$SW" >/dev/null 2>&1; rm -rf "$SC" $V/.work/bin/*seedown.$id.$$* $V/.work/mod/*seedown.$id.$$* $V/.work/*.own$id.$$*' EXIT
   ( cd "$SW" && { git apply "$V/$d/patch.diff" 2>/dev/null || { git apply -3 "$V/$d/patch.diff" >/dev/null 2>&1 && git reset -q; }; } ) || { printf '%s\t*\tnoapply\n' "$id"; exit 0; }
   mkdir -p "$SC"
   for s in $SEEDS; do
-    VERIF_SEED=$s VERIF_REPO="$SW" VERIF_WORK_SUFFIX=".own$id.$$" VERIF_EVIDENCE_DIR="$SC" VERIF_REPLAY_DIR="$SC" ./run.sh "$c" quick > "$SC/out" 2>&1
+    VERIF_SEED=$s VERIF_REPO="$SW" VERIF_WORK_SUFFIX=".ownslot$slot" VERIF_EVIDENCE_DIR="$SC" VERIF_REPLAY_DIR="$SC" ./run.sh "$c" quick > "$SC/out" 2>&1
     printf '%s\t%s\t%s\n' "$id" "$s" "$?"
   done
 }
 export -f one
+export PAR
+rmdir /tmp/seedown.lock.* 2>/dev/null
 ls -d ${MUTANTS:-seeded/C*-[a-z]} | xargs -P "$PAR" -I{} bash -c 'one {}' > "$OUT.tmp"
 sort "$OUT.tmp" > "$OUT"; rm -f "$OUT.tmp"
 echo "own-check table written to $OUT: $(wc -l < "$OUT") rows; not caught: $(awk -F'\t' '$3!=1' "$OUT" | wc -l)"
